@@ -134,7 +134,13 @@ def sign_rule(chk, repo, rid):
         calls = [c for c in ast.walk(fi.node) if isinstance(c, ast.Call) and norm(c.func) == 'expm_krylov']
         if len(calls) != 1:
             raise AnalysisError(f'{q}: expected one expm_krylov call')
-        c = calls[0]
+        # local temporaries are looked through (definitions unique in the function)
+        from ..defuse import local_defs, expand
+        import copy as _copy
+        defs = local_defs(fi.node)
+        c = _copy.deepcopy(calls[0])
+        c.args = [expand(a_, defs) for a_ in c.args]
+        ast.copy_location(c, calls[0])
         a = try_affine(c.args[2]) if len(c.args) >= 3 else None
         ok = a is not None and a == -Affine.sym('dt')
         chk.ob(rid, where(repo, fi, c), f'{fi.name}: time argument handed to expm_krylov is -dt', ok,
